@@ -51,7 +51,7 @@ fn run_case(c: &Value) -> Value {
             }
             json!({"status": res.join("/")})
         }
-        "cli" => {
+        "cli" | "bin" => {
             // files: {relative name: content}; argv uses @name to refer to a file
             reset_dir("c08");
             let mut paths: BTreeMap<String, String> = BTreeMap::new();
@@ -77,6 +77,23 @@ fn run_case(c: &Value) -> Value {
                     None => sx.to_string(),
                 }
             }).collect()).unwrap_or_default();
+            if kind == "bin" {
+                // the repository's real binary as a child process: the real stdout (a line writer over a pipe) and the
+                // real exit mapping are part of what is exercised
+                let o = crate::cli::cli_proc(&argv, &g("stdin"), &[], None, 15_000);
+                let panic_line = o.err.lines().skip_while(|l| !l.contains("panicked at")).take(2).collect::<Vec<_>>().join(" ");
+                return if o.status == -1000 {
+                    json!({"child_timeout": true, "why": "the real binary did not exit within 15 s"})
+                } else if !panic_line.is_empty() || o.status == 101 {
+                    // keep the message (second line) first: it is what the signature is built from
+                    let msg = o.err.lines().skip_while(|l| !l.contains("panicked at")).nth(1).unwrap_or("").to_string();
+                    json!({"panic": format!("{} [{}] (exit {})", msg, panic_line.chars().take(200).collect::<String>(), o.status)})
+                } else if o.status < 0 {
+                    json!({"child_died": true, "why": format!("the real binary was killed by signal {}", -o.status)})
+                } else {
+                    json!({"status": o.status, "out": o.out.chars().take(200).collect::<String>(), "err": o.err.chars().take(300).collect::<String>(), "out_bytes": o.out.len()})
+                };
+            }
             let o = cli_inproc(&argv, &g("stdin"));
             match o.panic {
                 Some(p) => json!({"panic": p}),
@@ -166,6 +183,10 @@ pub fn run_isolated(cases: &[Value], deadline_ms: u64, wall: Option<Instant>) ->
                                 let v: Value = serde_json::from_str(reply.trim()).unwrap_or(json!({"status":"unparsable-reply"}));
                                 if v.get("panic").is_some() {
                                     outcome = CaseOut { idx: i, outcome: "panic".into(), detail: v };
+                                } else if v.get("child_died").is_some() {
+                                    outcome = CaseOut { idx: i, outcome: "died".into(), detail: v };
+                                } else if v.get("child_timeout").is_some() {
+                                    outcome = CaseOut { idx: i, outcome: "timeout".into(), detail: v };
                                 } else {
                                     outcome = CaseOut { idx: i, outcome: "ok".into(), detail: v };
                                 }
@@ -201,6 +222,9 @@ fn unsafe_kill(pid: u32) {
 // ------------------------------------------------------------------ case generation
 fn lib_case(rules: &str, data: &str, class: &str) -> Value {
     json!({"kind":"lib","rules":rules,"data":data,"class":class})
+}
+fn bin_case(argv: &[&str], files: Value, stdin: &str, class: &str) -> Value {
+    json!({"kind":"bin","argv":argv,"files":files,"stdin":stdin,"class":class})
 }
 fn cli_case(argv: &[&str], files: Value, stdin: &str, class: &str) -> Value {
     json!({"kind":"cli","argv":argv,"files":files,"stdin":stdin,"class":class})
@@ -634,6 +658,70 @@ fn adversarial(thorough: bool) -> Vec<Value> {
             }
         }
     }
+    // --- custom messages of every degenerate shape (empty, blanks, only separators, separators at either end, line breaks)
+    //     on every kind of clause that takes one, over CloudFormation / Terraform / plain documents, in every output mode
+    {
+        let msgs = ["", " ", ";", " ; ", ";;", "a;", ";a", "a;;b", "\n", "a\nb", "\n\n", ";\n", "a ; ", "\t"];
+        let docs = [
+            "{\"Resources\":{\"a\":{\"Type\":\"T\",\"Properties\":{\"X\":2}}}}",
+            "{\"resource_changes\":[{\"address\":\"t.n\",\"change\":{\"after\":{\"X\":2}}}]}",
+            "{\"X\":2}",
+        ];
+        let qs = ["Resources.*.Properties.X", "resource_changes[*].change.after.X", "X"];
+        for (d, q) in docs.iter().zip(qs.iter()) {
+            for m in msgs {
+                let rules = [
+                    format!("rule r {{ {} == 1 <<{}>> }}\n", q, m),
+                    format!("rule r {{ {} !exists <<{}>> }}\n", q, m),
+                    format!("rule r {{ {}.Missing exists <<{}>> }}\n", q, m),
+                    format!("rule p(x) {{ %x == 1 }}\nrule r {{ p({}) <<{}>> }}\n", q, m),
+                    format!("rule a {{ {} == 1 <<{}>> }}\nrule r {{ a <<{}>> }}\n", q, m, m),
+                    format!("rule r {{ {} == 1 <<{}>> or {} == 3 <<{}>> }}\n", q, m, q, m),
+                    format!("rule r {{ {} in [5, 6] <<{}>> }}\n", q, m),
+                ];
+                for r in &rules {
+                    for extra in [vec![], vec!["-S", "all", "-v"], vec!["-o", "json"], vec!["-o", "yaml"], vec!["--structured", "-o", "junit", "-S", "none"], vec!["--structured", "-o", "sarif", "-S", "none"]] {
+                        let mut argv = vec!["validate", "-r", "@r.guard", "-d", "@d.json"];
+                        argv.extend(extra.iter());
+                        out.push(cli_case(&argv, json!({"r.guard": r, "d.json": d}), "", "message-shapes"));
+                    }
+                }
+            }
+        }
+    }
+    // --- the real binary writing to its real stdout: long lines of multi-byte characters (test-case names, custom messages,
+    //     string values, keys, rule-file names) so that the line writer behind stdout has to split a line between two writes
+    {
+        let fills: Vec<String> = vec!["\u{20ac}".repeat(700), "\u{e9}".repeat(1100), "\u{1F600}".repeat(600), format!("a{}", "\u{20ac}".repeat(1400)), "x".repeat(5000)];
+        for f in &fills {
+            for lead in ["", "x\n", "ab"] {
+                let s = format!("{}{}", lead, f);
+                let js = serde_json::to_string(&s).unwrap();
+                // test: the name of the test case, the name of a rule's expectation, an input string
+                let tests = format!("[{{\"name\":{},\"input\":{{\"a\":1,\"s\":{}}},\"expectations\":{{\"rules\":{{\"r\":\"PASS\"}}}}}}]", js, js);
+                for fmt in [vec![], vec!["-v"], vec!["-o", "json"], vec!["-o", "yaml"], vec!["-o", "junit"]] {
+                    let mut argv = vec!["test", "-r", "@r.guard", "-t", "@t.json"];
+                    argv.extend(fmt.iter());
+                    out.push(bin_case(&argv, json!({"r.guard": "rule r { a == 1 }\nrule q { s == \"y\" }\n", "t.json": tests}), "", "real-stdout-long-lines"));
+                }
+                // validate: a failing string value, a failing check under a long key, a long custom message
+                let datas = [format!("{{\"s\":{}}}", js), format!("{{{}:{{\"s\":1}}}}", js), format!("{{\"Resources\":{{\"a\":{{\"Type\":\"T\",\"Properties\":{{\"s\":{}}}}}}}}}", js)];
+                let msg: String = s.replace('>', "").replace('\n', " ");
+                let rules = ["rule r { s == \"y\" }\n".to_string(), "rule r { *.s == 2 }\n".to_string(), format!("rule r {{ s == \"y\" <<{}>> }}\n", msg), "rule r { Resources.*.Properties.s == \"y\" }\n".to_string()];
+                for d in &datas {
+                    for r in &rules {
+                        for extra in [vec![], vec!["-S", "all", "-v"], vec!["-p"], vec!["-o", "json"], vec!["-o", "yaml"], vec!["--structured", "-o", "json", "-S", "none"], vec!["--structured", "-o", "junit", "-S", "none"], vec!["--structured", "-o", "sarif", "-S", "none"]] {
+                            let mut argv = vec!["validate", "-r", "@r.guard", "-d", "@d.json"];
+                            argv.extend(extra.iter());
+                            out.push(bin_case(&argv, json!({"r.guard": r, "d.json": d}), "", "real-stdout-long-lines"));
+                        }
+                    }
+                }
+                out.push(bin_case(&["parse-tree", "-r", "@r.guard"], json!({"r.guard": format!("rule r {{ s == {} }}\n", js)}), "", "real-stdout-long-lines"));
+                out.push(bin_case(&["parse-tree", "-r", "@r.guard", "-j"], json!({"r.guard": format!("rule r {{ s == {} }}\n", js)}), "", "real-stdout-long-lines"));
+            }
+        }
+    }
     // --- several test files for one rules file, every ordered pair of {good, cut off, empty, wrong shape, not YAML, not UTF-8},
     //     picked up by name order (-a) and in directory mode, in every output format
     {
@@ -905,7 +993,7 @@ pub fn run(tier: &str) -> i32 {
             "timeout" => rep.violate(&format!("hang:{}", class), format!("no result within 20 s on {}", c.to_string().chars().take(400).collect::<String>()), replay),
             _ => {
                 // documented exit codes only
-                if c["kind"] == "cli" {
+                if c["kind"] == "cli" || c["kind"] == "bin" {
                     let st = o.detail["status"].as_i64().unwrap_or(-1);
                     let cmd = c["argv"][0].as_str().unwrap_or("");
                     let ok = match cmd {
